@@ -6,6 +6,7 @@ V = os.path.dirname(os.path.dirname(os.path.abspath(__file__)))
 # never touches /repo: the changes are applied to a scratch worktree (VERIF_REPO, default /tmp/repo_mut, created on demand) and evidence/work go to scratch directories
 REPO = os.environ.get('VERIF_REPO', '/tmp/repo_mut'); os.environ['VERIF_REPO'] = REPO; os.environ.setdefault('VERIF_WORK', REPO + '.work'); os.environ.setdefault('VERIF_EVIDENCE_DIR', REPO + '.evidence')
 if not os.path.exists(REPO): subprocess.run(['git', '-C', '/repo', 'worktree', 'add', '--detach', '-f', REPO, 'HEAD'], check=True, stdout=subprocess.DEVNULL)
+subprocess.run(['git', '-C', REPO, 'checkout', '-q', '--', '.']); subprocess.run(['git', '-C', REPO, 'checkout', '-q', '--detach', subprocess.run(['git', '-C', '/repo', 'rev-parse', 'HEAD'], stdout=subprocess.PIPE, text=True).stdout.strip()], check=True)
 os.makedirs(os.environ['VERIF_EVIDENCE_DIR'], exist_ok=True); tier = 'quick'; args = sys.argv[1:]
 if '--tier' in args: i = args.index('--tier'); tier = args[i + 1]; del args[i:i + 2]
 man = json.load(open(V + '/MANIFEST.json')); claimed = {c['property_id'] for c in man['checks']}
